@@ -358,9 +358,12 @@ print('@@' + json.dumps(c18.st_history(json.loads({spec!r}))))
 """
 
 
-def fresh_history(spec, hashseed, repo):
+def fresh_history(spec, hashseed, repo, optimize=False):
     env = dict(os.environ)
     env["PYTHONHASHSEED"] = str(hashseed)
+    env.pop("PYTHONOPTIMIZE", None)
+    if optimize:
+        env["PYTHONOPTIMIZE"] = "1"  # the twin interpreter runs under `python -O`
     code = FRESH_CODE.format(repo=repo, verif=core.VERIF_DIR, spec=json.dumps(spec))
     r = subprocess.run([core.PYTHON, "-c", code], capture_output=True, text=True, env=env, cwd="/tmp", timeout=400)
     for line in r.stdout.splitlines():
@@ -375,7 +378,7 @@ def run(spec: dict, ctx) -> dict:
     log.add("events", res["events"])
     stats = {"configs_checked": res["checked"], "inplace_mutation_steps_judged": res.get("mut_steps", 0) - res.get("mut_unjudged", 0), "inplace_mutation_steps_unjudged": res.get("mut_unjudged", 0)}
     if "fresh" in spec:
-        r2 = fresh_history(spec, spec["fresh"]["hashseed"], ctx.repo)
+        r2 = fresh_history(spec, spec["fresh"]["hashseed"], ctx.repo, optimize=bool(spec["fresh"].get("optimize")))
         stats["probe_fresh_interpreter"] = 1
         if r2["events"] != res["events"]:
             bad = next((a for a, b in zip(res["events"], r2["events"]) if a != b), None)
@@ -410,7 +413,7 @@ def post(pool, pairs, tier, rng):
             agree += 1
             continue
         specs = [v[0] for v in d.values()]
-        rerun.append((hid, dict(specs[0], fresh={"hashseed": pool.hashseeds[(specs[1].get("slot") or 0) % len(pool.hashseeds)]})))
+        rerun.append((hid, dict(specs[0], fresh={"hashseed": pool.hashseeds[(specs[1].get("slot") or 0) % len(pool.hashseeds)], "optimize": ((specs[1].get("slot") or 0) % len(pool.hashseeds)) in pool.optimize_slots})))
     rerun = rerun[:4]  # self-contained cross-process scenarios (fresh interpreter with the other server's hash seed)
     rs = pool.run([{"prop": PROP, "tier": tier, "timeout": JOB_TIMEOUT, "spec": s0, "slot": s0.get("slot")} for _, s0 in rerun])
     for (hid, s0), r in zip(rerun, rs):
@@ -475,7 +478,7 @@ def gen_specs(rng: random.Random, tier: str, n: int) -> list[dict]:
         for slot in range(K):
             specs.append(dict(h, slot=slot))
     for i in range(FRESH[tier]):
-        specs.append(dict(hists[i % len(hists)], slot=i % K, fresh={"hashseed": rng.randrange(1, 2**32 - 1)}, hist_id=None))
+        specs.append(dict(hists[i % len(hists)], slot=i % K, fresh={"hashseed": rng.randrange(1, 2**32 - 1), "optimize": i % 2 == 1}, hist_id=None))
     return specs
 
 
